@@ -454,7 +454,7 @@ func init() {
 	Register(Spec[c30WalkIn]{
 		ID: "C30", Suite: "walk", CoqImports: []string{"Check.C30"},
 		CoqType: "Check.C30.desc_in", CoqRun: "Check.C30.run_walk",
-		Quick: 1000, Thorough: 40000, Parallel: 8,
+		Quick: 450, Thorough: 30000, Parallel: 8,
 		Corpus: func() []c30WalkIn {
 			w := c30PlanBWitness()
 			return []c30WalkIn{
@@ -486,12 +486,9 @@ func init() {
 		Gen: func(r *Rand, i int) c30WalkIn {
 			in := c30WalkIn{ViaText: r.Bool()}
 			switch {
-			case i%4 == 0:
+			case i%3 == 0:
 				in.D, _ = c30GenValid(r)
 				in.Origin = "valid"
-			case i%4 == 1:
-				in.D = c30GenWild(r)
-				in.Origin = "wild"
 			default:
 				d, _ := c30GenValid(r)
 				var names []string
@@ -511,10 +508,28 @@ func init() {
 		Run: c30WalkRun, Coq: c30WalkCoq,
 	})
 
+	// the same walkers on descriptions assembled from the hostile vocabulary alone
+	Register(Spec[c30WalkIn]{
+		ID: "C30", Suite: "wild", CoqImports: []string{"Check.C30"},
+		CoqType: "Check.C30.desc_in", CoqRun: "Check.C30.run_walk",
+		Quick: 400, Thorough: 30000, Parallel: 8,
+		Gen: func(r *Rand, i int) c30WalkIn {
+			return c30WalkIn{D: c30ShortenFP(c30GenWild(r)), ViaText: r.Chance(1, 3), Origin: "wild"}
+		},
+		Shrink: func(in c30WalkIn) []c30WalkIn {
+			var out []c30WalkIn
+			for _, d := range c30ShrinkDesc(in.D) {
+				out = append(out, c30WalkIn{D: d, ViaText: in.ViaText, Origin: in.Origin})
+			}
+			return out
+		},
+		Run: c30WalkRun, Coq: c30WalkCoq,
+	})
+
 	Register(Spec[c30RecvIn]{
 		ID: "C30", Suite: "recv", CoqImports: []string{"Check.C30"},
 		CoqType: "Z * Check.C30.desc_in * bool * bool", CoqRun: "Check.C30.run_recv",
-		Quick: 500, Thorough: 20000, Parallel: 8,
+		Quick: 300, Thorough: 20000, Parallel: 8,
 		Corpus: func() []c30RecvIn {
 			w := c30PlanBWitness()
 			out := []c30RecvIn{}
@@ -582,7 +597,7 @@ func init() {
 	Register(Spec[c30UndeclIn]{
 		ID: "C30", Suite: "undecl", CoqImports: []string{"Check.C30"},
 		CoqType: "Check.C30.media_in * bool * bool", CoqRun: "Check.C30.run_undecl",
-		Quick: 300, Thorough: 6000, Parallel: 8,
+		Quick: 200, Thorough: 6000, Parallel: 8,
 		Corpus: func() []c30UndeclIn {
 			return []c30UndeclIn{
 				{M: c30Media{Kind: "video", Attrs: []c30Attr{{"mid", "0"}, {"msid", "s t"}}}, Audio: true, Video: true},
